@@ -211,6 +211,26 @@ func checkC09(e *Env) {
 		}
 	})
 
+	// histories in one process: sizes and counts, valid and invalid, among calls of the other functions
+	histCalls := e.runHistories(drv, "C09", e.pick(24, 300), 4, func(ops []plan.Op, res []plan.Res) {
+		for i := range res {
+			op := &ops[i]
+			if (op.Fn != "new" && op.Fn != "enc") || res[i].Panic != "" {
+				continue
+			}
+			x := e.refEval(op)
+			x.out, x.newValid = nil, 0 // only the size rule is this property's business
+			want := (op.Fn == "enc" && validEntLen(len(op.Entropy()))) || (op.Fn == "new" && validCount64(op.N))
+			if !want {
+				empty := ""
+				x.out = &empty
+			}
+			if why := e.judgeAgainstRef(op, &res[i], x); why != "" {
+				e.Violate(&Violation{What: fmt.Sprintf("after earlier calls in the same process %s (size/count %d/%d): %s", fnName(op.Fn), len(op.Entropy()), op.N, why), Ops: ops[:i+1], Observed: res[i], Detail: historyNote})
+				return
+			}
+		}
+	})
 	var al []int
 	for l := range acceptedLens {
 		al = append(al, l)
@@ -227,6 +247,7 @@ func checkC09(e *Env) {
 	e.WriteEvidence("exploration", map[string]any{
 		"evaluations":              stats.Ops,
 		"distinct_nontrivial":      dist.Len(),
+		"calls_inside_histories":   histCalls,
 		"rule":                     "cases: NewMnemonicByEntropy with nil and every slice length 0..2048 (thorough 0..8192), lengths congruent to valid ones modulo 2^8 and 2^16, and sizes up to 1 MiB (thorough 16 MiB) over supported and unsupported languages; NewMnemonic with every int in [-1500,1500] (thorough [-20000,20000]), windows of +-30 around MinInt64, MinInt32, +-2^31, MaxInt32, 2^32, 2^62, MaxInt64, and values congruent to valid counts modulo 2^8/2^16/2^32 (truncation mutants), each with a working scripted source, a failing scripted source and the default source (observed through the crypto/rand interposer); non-trivial = every case (the required outcome is fully determined); distinct by (function, size or count, language, source)",
 		"samples":                  smp.List(),
 		"entropy_lengths_tried":    len(lensTried),
